@@ -1,3 +1,4 @@
 import Audit.Tool
 import Uds.Props.C03
+import Uds.Props.C03Call
 #audit Uds.Props.C03
